@@ -4,9 +4,10 @@ import re
 import subprocess
 
 import verif as V
+import locks
 
 PROP = "C20"
-SPEC = ["Bng.Spec.C20", "Bng.Spec.C20Index"]
+SPEC = ["Bng.Spec.C20", "Bng.Spec.C20Index"] + ["Bng.Spec.C20Locks", "Bng.Spec.C16Locks"]
 MON = ["dup-key", "id-unique", "range", "fwd-rev", "release-frame"]
 # all five components are hosted by ONE harness binary (harness/cmd/c20, one link instead of five); the component is
 # selected through the environment.  harness/cmd/<component> hosts each one alone (same code, bngverif/c20/<component>).
@@ -38,6 +39,7 @@ ASSUME = [
     "index: not driven: IPv6 addresses, Authenticate, the expiry sweeps (same by-value deletion code), pools of state.Store; the stress workloads are clean by construction (every goroutine owns its keys), their audit is judged with clause none",
     "NTE ids, subscriber ids and MACs are injectively mapped to naturals by the harness",
 ]
+ASSUME = ASSUME + [locks.ASSUME]
 
 
 def race_pass(ctx):
@@ -104,8 +106,8 @@ def race_pass(ctx):
 
 
 def run(tier, seed):
-    return V.standard_check(PROP, SPEC, COMPS, LEVEL, ASSUME, tier, seed, post=race_pass)
+    return V.standard_check(PROP, SPEC, COMPS, LEVEL, ASSUME, tier, seed, pre=locks.with_locks(), post=race_pass)
 
 
 def replay(path):
-    return V.replay(PROP, COMPS, path, SPEC)
+    return V.replay(PROP, COMPS, path, SPEC, pre=locks.with_locks())
